@@ -1,9 +1,11 @@
 import Panacea.Driver.CompKey
+import Panacea.Driver.Aol
 /-! Model driver: one operation per input line, one answer per output line. -/
 open Panacea Panacea.Driver
 
 structure DState where
   addrs : AddrTable := {}
+  aol : AolD := {}
 
 def stepLine (st : DState) (line : String) : DState × String :=
   let toks := (line.splitOn " ").filter (· ≠ "")
@@ -17,6 +19,10 @@ def stepLine (st : DState) (line : String) : DState × String :=
   | tok :: _ =>
     if tok.startsWith "ck." then
       (st, (compkeyStep st.addrs toks).getD "bad-op")
+    else if tok = "reset" || tok = "now" || tok.startsWith "aol." then
+      match aolStep st.addrs st.aol toks with
+      | some (d, ans) => ({ st with aol := d }, ans)
+      | none => (st, "bad-op")
     else (st, "bad-op")
   | [] => (st, "bad-op")
 
